@@ -916,7 +916,7 @@ impl Engine for C11 {
         to_outcome(check_text(text), None, case.clone())
     }
     fn rule(&self) -> String {
-        "texts: every sequence of <= L tokens over the full alphabet (54 spellings, one per TokenKind) and of L+1..=L' over the reduced grammar alphabet; every string of <= n characters over the character alphabet, alone and placed inside a string literal, a block comment, a line comment, a line annotation, an inline annotation and between two tokens of a valid program; the corpus (examples/*.oal, 48 small valid programs) verbatim, re-rendered and with every token-level deviation (delete, duplicate, swap, replace by each of 54 tokens) at every site; 42 nesting / chain / digit families (closed, unclosed and mismatched brackets). Per text: tokens and lexical-error spans tile the text on character boundaries; each token re-lexes alone to itself and its value is its slice minus delimiters; tree leaves == non-trivia tokens before the remaining-input token, once, in order; every node's span() == hull of its leaves; spans of syntax errors, of the errors of parse_import / parse_declaration / parse_resource / parse_expression called directly at the first token (each a token span or the end-of-input span), compile errors (single in-memory module through module::load + compile::compile) and external definitions of all variables lie in the text on character boundaries. distinct = distinct (set of token kinds, set of node kinds, lexical / remaining-input / compile outcome) observations".into()
+        "texts: every sequence of <= L tokens over the full alphabet (54 spellings, one per TokenKind) and of L+1..=L' over the reduced grammar alphabet; every string of <= n characters over the character alphabet, alone and placed inside a string literal, a block comment, a line comment, a line annotation, an inline annotation and between two tokens of a valid program; the corpus (examples/*.oal, 50 small valid programs) verbatim, re-rendered and with every token-level deviation (delete, duplicate, swap, replace by each of 54 tokens) at every site; 42 nesting / chain / digit families (closed, unclosed and mismatched brackets). Per text: tokens and lexical-error spans tile the text on character boundaries; each token re-lexes alone to itself and its value is its slice minus delimiters; tree leaves == non-trivia tokens before the remaining-input token, once, in order; every node's span() == hull of its leaves; spans of syntax errors, of the errors of parse_import / parse_declaration / parse_resource / parse_expression called directly at the first token (each a token span or the end-of-input span), compile errors (single in-memory module through module::load + compile::compile) and external definitions of all variables lie in the text on character boundaries. distinct = distinct (set of token kinds, set of node kinds, lexical / remaining-input / compile outcome) observations".into()
     }
     fn crash_signature(&self, kind: &str, _case: &Value) -> String {
         format!("{kind} | lexer, parser and compile pipeline in-process | worker process died or stalled on one case")
